@@ -1,6 +1,6 @@
 """C13 — state broadcast: ids strictly increase, delivery only of something newer, latest state."""
-from rl import (entry_methods, loc_endswith, path_cond, trace_summary, where, const_of, fmt_val, fmt_loc, fields_of)
-from common import (scan_field_writes, w4_pending_stores_waker, w4_helper, contains, poll_variant)
+from rl import (method_role, entry_methods, loc_endswith, path_cond, trace_summary, where, const_of, fmt_val, fmt_loc, fields_of)
+from common import (scan_field_writes, w4_pending_stores_waker, w4_helper, contains, poll_variant, cmp_fact)
 from lib import CheckerError
 
 STATE = 'channel::state_broadcast::ChannelState'
@@ -37,7 +37,7 @@ def run(C, R):
                     names = [x.get('f') for x in p if isinstance(x, dict) and 'f' in x]
                     if 'state_id' in names and fn.get('impl_adt') == STATE and s['place']['l'] == 1:
                         nw += 1
-                        if fn.get('name') != 'send':
+                        if method_role(F, fn)[0] != 'send':
                             R.fail('C13.R1', [fn['path'], 'id-write-outside-send'],
                                    'state_id is written in %s' % fn['path'], F.loc(fn, s['ln']))
         R.floor('C13.R1 id-write-sites[%s]' % cfg, nw, 1)
@@ -89,8 +89,8 @@ def run(C, R):
                     if pv != 'Ready':
                         continue
                     rv = rv[3][0][1]
-                lt = const_of(E, path.facts, ('bin', 'Lt', requested, SELF_ID))
-                wrong = const_of(E, path.facts, ('bin', 'Lt', SELF_ID, requested))
+                lt = cmp_fact(E, path.facts, 'Lt', requested, SELF_ID)
+                wrong = cmp_fact(E, path.facts, 'Lt', SELF_ID, requested)
                 if rv[0] == 'agg' and rv[2] == 'Some':
                     ndel += 1
                     tup = rv[3][0][1]
